@@ -184,6 +184,27 @@ func c03Pre(w *wctx, p *position.Position, r *refchess.Pos) {
 				map[string]interface{}{"move": m.StringUci(), "ops": "DoMove UndoMove"})
 		}
 	}
+	// Unprimed excursions: every query above has cached this position's in-check answer. A position whose answer was
+	// never asked (set up from FEN, as a GUI hands it to the engine) is taken through each move that changes the check
+	// status - made, the child asked, unmade - and only then asked itself.
+	for _, m := range pseudo {
+		if p.GivesCheck(m) == s0.hasCheck {
+			continue
+		}
+		fp, err := position.NewPositionFen(r.FEN())
+		if err != nil {
+			break
+		}
+		fp.DoMove(m)
+		legal := fp.WasLegalMove()
+		fp.HasCheck()
+		fp.UndoMove()
+		run.AddTransitions(1)
+		if legal && fp.HasCheck() != s0.hasCheck {
+			w.run.Violate("undo-unprimed:hascheck", fmt.Sprintf("position set up from FEN, DoMove(%s), HasCheck on the child, UndoMove: HasCheck()=%v but the king is attacked=%v", m.StringUci(), !s0.hasCheck, s0.hasCheck),
+				w.replayOf(r, map[string]interface{}{"move": m.StringUci(), "ops": "NewPositionFen DoMove HasCheck UndoMove HasCheck"}))
+		}
+	}
 	// The null-move excursion comes first: the undo-stack slot of this ply then still holds what an earlier node of the
 	// walk (a sibling subtree with another clock / check status / ep square) left there, or nothing at all for a
 	// position set up from FEN - a null move that does not save one of the scalars restores that stale value.
